@@ -238,7 +238,7 @@ func run(q req) resp {
 	tr := frugal.NewAdapterTransport(under)
 	ctl := &controller{notify: make(chan struct{}, 1), block: map[string]bool{
 		"request.registered": true, "request.got": true, "request.senderr": true, "request.timeout": true,
-		"dispatch.send": true}}
+		"dispatch.send": true, "dispatch.dropped": true}}
 	frugal.VerifSetYield(ctl.yield)
 	defer frugal.VerifSetYield(nil)
 	if err := tr.Open(); err != nil {
@@ -274,6 +274,15 @@ func run(q req) resp {
 	readerBusy := false // reader parked at dispatch.send
 	var readerParked *parked
 	readerTarget := -1
+	// the reader may stay parked right after it decided to drop a frame (channel full): callers
+	// move on in that window; it is released before the next frame is fed
+	var readerDropParked *parked
+	releaseDrop := func() {
+		if readerDropParked != nil {
+			close(readerDropParked.rel)
+			readerDropParked = nil
+		}
+	}
 	// a caller blocked in its select with something ready WILL leave it: wait for that autonomous
 	// step and log it now, so that the log order is the order things happened
 	settle := func(i int) {
@@ -316,6 +325,7 @@ func run(q req) resp {
 		}
 	}
 	feed := func(opid uint64, tag int) {
+		releaseDrop()
 		f := frameFor(opid, tag)
 		under.reads <- f
 		// the read loop either misses (notify only) or parks at dispatch.send
@@ -352,6 +362,7 @@ func run(q req) resp {
 			}
 		} else {
 			ev(6, 0, 0, 0)
+			readerDropParked = p
 		}
 	}
 
@@ -526,6 +537,7 @@ func run(q req) resp {
 	if r.Hang == "" && readerBusy {
 		deliver()
 	}
+	releaseDrop()
 	r.RegLen = frugal.VerifTransportRegistryLen(tr)
 	if r.Hang == "" {
 		r.Fresh = freshRequest(tr, under, ctl)
